@@ -30,7 +30,21 @@ class Execution:
         return [d["c"] for d in self.decisions]
 
 
-def parse_trace(path):
+REGION_EVENTS = {
+    "gc": {"sent", "handled", "enter_group", "exit_group", "slot", "final_slot"},
+    "merge": {"merge_begin", "merge_end", "bucket_take", "bucket_park", "bucket_done", "publish",
+              "reserve_ok", "reserve_fail"},
+}
+
+
+def parse_trace(path, regions_wanted=None):
+    """Events of regions that are not being scheduled come from free-running threads, so their
+    position in the trace is not deterministic; they are dropped."""
+    keep = None
+    if regions_wanted:
+        keep = set()
+        for r in regions_wanted.split(","):
+            keep |= REGION_EVENTS.get(r, set())
     decisions, events, xlines, regions, dl = [], [], [], [], []
     try:
         with open(path) as f:
@@ -53,6 +67,8 @@ def parse_trace(path):
             dl.append(f"{d['k']} {d['n']} {d['pe']} {d['fp']} {d['en']}")
         elif tag == "E":
             parts = line.split(" ")
+            if keep is not None and parts[1] not in keep:
+                continue
             events.append((parts[1], int(parts[2]), int(parts[3]), int(parts[4]), int(parts[5][2:])))
         elif tag == "X":
             xlines.append(line)
@@ -79,6 +95,7 @@ class Server:
 
     def start(self):
         import subprocess
+        self.env_keys = set()
         env = dict(os.environ)
         env["WILD_VERIF_SERVE"] = "1"
         self.p = subprocess.Popen([self.wild], env=env, stdin=subprocess.PIPE,
@@ -99,7 +116,10 @@ class Server:
         import select
         if self.p is None or self.p.poll() is not None:
             self.start()
-        envs = "\x1f".join(f"{k}={v}" for k, v in sorted(env.items()))
+        # Variables set for an earlier request stay set in the server process: unset them.
+        stale = getattr(self, "env_keys", set()) - set(env)
+        self.env_keys = set(env)
+        envs = "\x1f".join([f"{k}={v}" for k, v in sorted(env.items())] + sorted(stale))
         line = "\t".join(["RUN", sched, regions, trace, str(horizon), cwd or "", envs,
                            "\x1f".join(argv)]) + "\n"
         try:
@@ -128,6 +148,11 @@ class Server:
             self.stop()
             return EXIT_MACHINERY, f"bad reply {reply!r}"
         msg = parts[2].replace("\\n", "\n").replace("\\\\", "\\")
+        if int(parts[1]) == 101:
+            # A panic may leave process-global state (poisoned locks, half-run scopes) behind.
+            err = ""
+            self.stop()
+            return 101, msg + " (panicked)"
         return int(parts[1]), msg
 
 
@@ -165,7 +190,7 @@ def run_execution_server(cfg, prefix, workdir):
     x.rc = rc
     x.stderr = msg
     x.out_sha = file_sha(out)
-    x.decisions, x.events, x.xlines, x.regions, dl = parse_trace(trace)
+    x.decisions, x.events, x.xlines, x.regions, dl = parse_trace(trace, cfg["regions"])
     x.dlines_hash = dl
     return x
 
@@ -194,7 +219,7 @@ def run_execution_subprocess(cfg, prefix, workdir):
     x.rc = rc
     x.stderr = se.decode("utf-8", "replace")
     x.out_sha = file_sha(out)
-    x.decisions, x.events, x.xlines, x.regions, dl = parse_trace(trace)
+    x.decisions, x.events, x.xlines, x.regions, dl = parse_trace(trace, cfg["regions"])
     x.dlines_hash = dl
     return x
 
